@@ -522,10 +522,10 @@ example : ∃ out toks'' ps'', getMiniHTML multiToks = some (.ok out) ∧ lexStr
 
 example : (match getMiniHTML multiToks with
     | some r => okIs r "<!doctype html>\na <b >x</b>&amp;<br />"
-    | none => false) = true := by decide
+    | none => false) = true := by decide +kernel
 example : (match getFormattedHTML (.int 1) multiToks with
     | some r => okIs r "<!doctype html>\na \n<b >x\n</b>&amp;\n<br />"
-    | none => false) = true := by decide
+    | none => false) = true := by decide +kernel
 /-- the output texts in question -/
 example : okIs (format (mkCfg .slim (.int 4) true) multiToks)
     "<!doctype html>\na \n<b>x\n</b>&amp;\n<br/>" = true := by decide
